@@ -545,6 +545,39 @@ var scenarios = []scenario{
 		x.do(rSid("CLOSE", q.Fh, q.T, q.Q, 7))
 		x.do(rSid("CLOSE", r.Fh, r.T, r.Q, 8))
 	}},
+	{"failed-initial-lock-leaves-no-lock-state", func(x *sc) {
+		// The first LOCK of a lock-owner on a file (open_to_lock_owner)
+		// fails: no lock state id was issued, so nothing may be left
+		// behind for (lock-owner, file); the client retries with the open
+		// state id and is granted the lock once nothing conflicts.
+		cl, cm := x.client(1, 1), x.client(2, 1)
+		a := x.openc(cl, "o1", 1, "a", 3)
+		b, _ := x.e.do(rOpen(cl, "o1", 3, "b", 3, "UNCHECKED"))
+		c3, _ := x.e.do(rOpen(cl, "o1", 4, "c", 3, "UNCHECKED"))
+		mb := x.openc(cm, "o1", 1, "b", 3)
+		x.do(rLockNew(a.Fh, a.T, a.Q, 5, cl, "l1", 1, "W", 0, 2)) // l1 is known to the server (lock state on a)
+		m := x.do(rLockNew(mb.Fh, mb.T, mb.Q, 3, cm, "l1", 1, "W", 0, 1))
+		x.do(rLockNew(b.Fh, b.T, b.Q, 6, cl, "l1", 2, "W", 0, 3)) // denied: M holds [0,1) of b
+		x.do(rLockt(b.Fh, cl, "l1", "W", 0, 3))                   // the test says so too
+		x.do(rLocku(mb.Fh, m.T, m.Q, 2, 0, 1))
+		x.do(rLockt(b.Fh, cl, "l1", "W", 0, 3))                         // no conflict any more
+		lb := x.do(rLockNew(b.Fh, b.T, b.Q, 7, cl, "l1", 3, "W", 0, 3)) // so the retry is granted
+		x.do(rLock(b.Fh, lb.T, lb.Q, 4, "W", 4, 5))
+		// another kind of failure: a bad range, on a third file
+		r := rLockNew(c3.Fh, c3.T, c3.Q, 8, cl, "l1", 5, "W", 1, 1)
+		r.Lenk = "zero"
+		x.do(r)
+		x.do(rLockt(c3.Fh, cl, "l1", "W", 0, nPos))
+		lc := x.do(rLockNew(c3.Fh, c3.T, c3.Q, 9, cl, "l1", 6, "W", 1, 2))
+		x.do(rLocku(c3.Fh, lc.T, lc.Q, 7, 1, 2))
+		// control: the first file of a lock-owner that the server does not know yet
+		x.do(rLockNew(mb.Fh, mb.T, mb.Q, 4, cm, "l2", 1, "R", 0, 4)) // denied: L holds [0,3) W of b
+		x.do(rLocku(b.Fh, lb.T, lb.Q+1, 8, 0, nPos))
+		x.do(rLockNew(mb.Fh, mb.T, mb.Q, 5, cm, "l2", 1, "R", 0, 4)) // granted; l2 starts over with any lock seqid
+		x.do(rRelease(cl, "l1"))                                     // locks held on a
+		x.do(rSid("CLOSE", b.Fh, b.T, b.Q, 10))
+		x.do(rSid("CLOSE", c3.Fh, c3.T, c3.Q, 11))
+	}},
 	{"foreign-lock-owner", func(x *sc) {
 		// an open state id is honoured only for lock-owners of the client it was issued to
 		c1, c2 := x.client(1, 1), x.client(2, 1)
